@@ -282,6 +282,8 @@ def check(model, rep):
     sxm.POSITIVE_ATOMS.clear()
     check_setters(model, rep)
     from sa.forwarding import check_forwarding
+    from sa.forwarding import check_trig
+    check_trig(model, rep, 'C10.trig')
     check_forwarding(model, rep, 'C10.forwarding', ('drives', 'driven_by', 'mating_role', 'master_gear_ratio', 'master_gear_efficiency', 'self_locking'))
     from sa.forwarding import check_setter_stores
     check_setter_stores(model, rep, 'C10.setter-stores', ('drives', 'driven_by', 'mating_role', 'master_gear_ratio', 'master_gear_efficiency', 'self_locking'))
